@@ -15,4 +15,7 @@ def program(*configs):
         for c in configs:
             paths.extend(res[c].values())
         _cache[key] = mir.Program(paths)
-    return _cache[key]
+    prog = _cache[key]
+    from . import absint
+    absint.PTR_BITS = 32 if any('target_pointer_width=32' in cfg for _, cfg in prog.cfg) else 64
+    return prog
